@@ -88,6 +88,8 @@ def _exec_chunk(job):
     raters = dict(world.RATERS)
     for n, (hist, tag) in enumerate(zip(histories, tags)):
         cid = cids[n % len(cids)]
+        if tag.startswith("scripted:"):
+            cid = tag.split(":")[1]          # scripted:<curve>:<n>
         ex = curve_exec.Executor(cid, orc, interner=ids, raters=raters)
         tr = ex.run(hist)
         tr["tag"] = tag
@@ -293,7 +295,8 @@ def signature(op):
 
 
 def run_engine(ctx, prefix, slices, n_random, rand_len, rand_weights=None,
-               walk_limit=None, curves=("syn1", "rec1"), maxlen=12):
+               walk_limit=None, curves=("syn1", "rec1"), maxlen=12,
+               scripted=()):
     """Common body of the C03/C06/C09/C10 checks.  `prefix` selects the
     clauses this check is responsible for (e.g. 'C03_')."""
     rng = random.Random(ctx.seed * 7919 + 13)
@@ -325,6 +328,12 @@ def run_engine(ctx, prefix, slices, n_random, rand_len, rand_weights=None,
     for i in range(n_random):
         histories.append(random_history(rng, rand_len, rand_weights))
         tags.append(f"random:{i}")
+    # 2b. scripted histories (a product the check wants covered for sure),
+    #     each on every curve
+    for cid in curves:
+        for i, h in enumerate(scripted):
+            histories.append(h)
+            tags.append(f"scripted:{cid}:{i}")
     # 3. execute on the real code
     traces, hashobs, terms = execute(histories, tags, list(curves))
     t2 = time.time()
